@@ -26,7 +26,10 @@ import (
 	imodels "github.com/influxdata/influxdb/models"
 	"github.com/influxdata/influxql"
 	"github.com/influxdata/kapacitor"
+	"github.com/influxdata/kapacitor/edge"
 	"github.com/influxdata/kapacitor/influxdb"
+	"github.com/influxdata/kapacitor/udf"
+	"github.com/influxdata/kapacitor/udf/agent"
 
 	"verifharness/kit"
 )
@@ -221,7 +224,37 @@ func encQuery(text string) (enc string, srcs []string) {
 			srcs = append(srcs, "?")
 		}
 	}
-	return fmt.Sprintf("%s;%s;%08x", strings.Join(treeOf(sel.Condition), ","), gb, crc32.ChecksumIEEE([]byte(text))), srcs
+	// fill option and the tag / * dimensions, as the text says them
+	fill := "?"
+	switch sel.Fill {
+	case influxql.NullFill:
+		fill = "null"
+	case influxql.NoFill:
+		fill = "none"
+	case influxql.NumberFill:
+		fill = fmt.Sprintf("number:%v", sel.FillValue)
+	case influxql.PreviousFill:
+		fill = "previous"
+	case influxql.LinearFill:
+		fill = "linear"
+	}
+	var tagDims []string
+	for _, d := range sel.Dimensions {
+		switch x := d.Expr.(type) {
+		case *influxql.VarRef:
+			tagDims = append(tagDims, kit.Esc(x.Val))
+		case *influxql.Wildcard:
+			tagDims = append(tagDims, "*")
+		case *influxql.Call:
+		default:
+			tagDims = append(tagDims, "?")
+		}
+	}
+	dims := "-"
+	if len(tagDims) > 0 {
+		dims = strings.Join(tagDims, "+")
+	}
+	return fmt.Sprintf("%s;%s;%s/%s;%08x", strings.Join(treeOf(sel.Condition), ","), gb, fill, dims, crc32.ChecksumIEEE([]byte(text))), srcs
 }
 
 // ---------------------------------------------------------------------------------------------
@@ -301,6 +334,42 @@ func execSplice(t []string) string {
 			orig = "1"
 		}
 		return out + " q2=" + strings.Split(enc2, ";")[0] + " orig=" + orig
+	})
+}
+
+// ---------------------------------------------------------------------------------------------
+// op: dims — Query.Dimensions / AlignGroup / SetStartTime in the order newQueryNode and doQuery call them
+
+func execDims(t []string) string {
+	if len(t) != 5 {
+		return "badop"
+	}
+	l, _ := strconv.ParseInt(t[1], 10, 64)
+	o, _ := strconv.ParseInt(t[2], 10, 64)
+	s, _ := strconv.ParseInt(t[4], 10, 64)
+	return guard(func() string {
+		q, err := kapacitor.NewQuery(`SELECT mean("v") FROM "db"."rp"."m"`)
+		if err != nil {
+			return "badop"
+		}
+		var dim interface{} = kapacitor.TimeDimension{Length: time.Duration(l), Offset: time.Duration(o)}
+		if o == 0 && s%2 == 0 {
+			dim = time.Duration(l) // the other accepted form
+		}
+		if err := q.Dimensions([]interface{}{dim}); err != nil {
+			return "err"
+		}
+		if t[3] == "1" {
+			q.AlignGroup()
+		}
+		q.SetStartTime(time.Unix(0, s).UTC())
+		q.SetStopTime(time.Unix(0, s+1000000000).UTC())
+		enc, _ := encQuery(q.String())
+		p := strings.Split(enc, ";")
+		if len(p) < 2 {
+			return "unreadable"
+		}
+		return "gb=" + p[1]
 	})
 }
 
@@ -387,6 +456,9 @@ func list(xs []string) string {
 type fakeClient struct {
 	mu   sync.Mutex
 	cmds []string
+	// the result every query gets: one series with one point at time pt, or (noPoint) a series without points
+	pt      int64
+	noPoint bool
 }
 
 func (c *fakeClient) Ping(ctx context.Context) (time.Duration, string, error) { return 0, "", nil }
@@ -395,10 +467,14 @@ func (c *fakeClient) WriteV2(w influxdb.FluxWrite) error                        
 func (c *fakeClient) Query(q influxdb.Query) (*influxdb.Response, error) {
 	c.mu.Lock()
 	c.cmds = append(c.cmds, q.Command)
+	pt, noPoint := c.pt, c.noPoint
 	c.mu.Unlock()
+	var values [][]interface{}
+	if !noPoint {
+		values = [][]interface{}{{time.Unix(0, pt).UTC(), 1.0}}
+	}
 	return &influxdb.Response{Results: []influxdb.Result{{Series: []imodels.Row{{
-		Name: "m", Columns: []string{"time", "v"},
-		Values: [][]interface{}{{time.Unix(5, 0).UTC(), 1.0}},
+		Name: "m", Columns: []string{"time", "v"}, Values: values,
 	}}}}}, nil
 }
 func (c *fakeClient) QueryFlux(q influxdb.FluxQuery) (flux.ResultIterator, error) {
@@ -425,6 +501,93 @@ type fakeInflux struct{ c *fakeClient }
 
 func (f fakeInflux) NewNamedClient(name string) (influxdb.Client, error) { return f.c, nil }
 
+// batchSink is the harness' own `@bsink()` UDF: it records the time stamped on every batch it receives and
+// passes the batch on. (kit's sink panics when Abort arrives before Open; this one creates its channels up front.)
+type batchSink struct {
+	mu    sync.Mutex
+	times []int64
+}
+
+func (b *batchSink) add(t int64) { b.mu.Lock(); b.times = append(b.times, t); b.mu.Unlock() }
+func (b *batchSink) take() []int64 {
+	b.mu.Lock()
+	defer b.mu.Unlock()
+	out := b.times
+	b.times = nil
+	return out
+}
+func (b *batchSink) count() int { b.mu.Lock(); defer b.mu.Unlock(); return len(b.times) }
+
+type sinkService struct{ sink *batchSink }
+
+func (s *sinkService) List() []string { return []string{"bsink"} }
+func (s *sinkService) Info(name string) (udf.Info, bool) {
+	if name != "bsink" {
+		return udf.Info{}, false
+	}
+	return udf.Info{Wants: agent.EdgeType_BATCH, Provides: agent.EdgeType_BATCH, Options: map[string]*agent.OptionInfo{}}, true
+}
+func (s *sinkService) Create(name, taskID, nodeID string, d udf.Diagnostic, abortCallback func()) (udf.Interface, error) {
+	info, ok := s.Info(name)
+	if !ok {
+		return nil, fmt.Errorf("unknown udf %s", name)
+	}
+	return &sinkUDF{sink: s.sink, info: info, in: make(chan edge.Message), out: make(chan edge.Message),
+		done: make(chan struct{}), abrt: make(chan struct{}), abort: abortCallback}, nil
+}
+
+type sinkUDF struct {
+	sink   *batchSink
+	info   udf.Info
+	in     chan edge.Message
+	out    chan edge.Message
+	done   chan struct{}
+	abrt   chan struct{}
+	abort  func()
+	once   sync.Once
+	opened bool
+}
+
+func (u *sinkUDF) Open() error {
+	u.opened = true
+	go func() {
+		defer close(u.done)
+		defer close(u.out)
+		for m := range u.in {
+			if b, ok := m.(edge.BufferedBatchMessage); ok {
+				u.sink.add(b.Begin().Time().UnixNano())
+			}
+			select {
+			case u.out <- m:
+			case <-u.abrt:
+				return
+			}
+		}
+	}()
+	return nil
+}
+func (u *sinkUDF) Info() (udf.Info, error)            { return u.info, nil }
+func (u *sinkUDF) Init(options []*agent.Option) error { return nil }
+func (u *sinkUDF) Abort(err error) {
+	u.once.Do(func() {
+		close(u.abrt)
+		if u.abort != nil {
+			go u.abort() // tells the UDF node to stop writing to In()
+		}
+	})
+}
+func (u *sinkUDF) Close() error {
+	close(u.in)
+	if u.opened {
+		<-u.done
+	}
+	return nil
+}
+func (u *sinkUDF) Snapshot() ([]byte, error)     { return nil, nil }
+func (u *sinkUDF) Restore(snapshot []byte) error { return nil }
+func (u *sinkUDF) In() chan<- edge.Message       { return u.in }
+func (u *sinkUDF) Out() <-chan edge.Message      { return u.out }
+
 // injTicker delivers the tick times the harness injects; Next is the real ticker's.
 type injTicker struct {
 	orig kapacitor.VerifTicker
@@ -436,10 +599,11 @@ func (t *injTicker) Stop()                        {}
 func (t *injTicker) Next(now time.Time) time.Time { return t.orig.Next(now) }
 
 var (
-	tmOnce sync.Once
-	theTM  *kit.TM
-	theFC  *fakeClient
-	taskNo int
+	tmOnce  sync.Once
+	theTM   *kit.TM
+	theFC   *fakeClient
+	theSink *batchSink
+	taskNo  int
 )
 
 func backbone() (*kit.TM, *fakeClient) {
@@ -451,6 +615,8 @@ func backbone() (*kit.TM, *fakeClient) {
 		theTM = tm
 		theFC = &fakeClient{}
 		tm.TM.InfluxDBService = fakeInflux{theFC}
+		theSink = &batchSink{}
+		tm.TM.UDFService = &sinkService{theSink}
 	})
 	return theTM, theFC
 }
@@ -475,7 +641,7 @@ type schedCfg struct {
 	stop                     int64
 	stopZero                 bool
 	ticks                    []int64
-	every0, negEvery, noSche bool
+	gbz                      bool // groupBy(time(0s))
 }
 
 func parseKV(t []string) map[string]string {
@@ -532,7 +698,9 @@ func script(c *schedCfg) (string, bool) {
 			b.WriteString("\t\t.align()\n")
 		}
 		var dims []string
-		if c.gb != 0 {
+		if c.gbz {
+			dims = append(dims, "time(0u)")
+		} else if c.gb != 0 {
 			if c.gbo != 0 {
 				dims = append(dims, fmt.Sprintf("time(%s, %s)", durLit(c.gb), durLit(c.gbo)))
 			} else {
@@ -557,6 +725,9 @@ func script(c *schedCfg) (string, bool) {
 		case "null", "none", "previous", "linear":
 			fmt.Fprintf(&b, "\t\t.fill('%s')\n", c.fill)
 		}
+		if i == 0 {
+			b.WriteString("\t@bsink()\n")
+		}
 	}
 	return b.String(), true
 }
@@ -571,6 +742,8 @@ func errKind(err error) string {
 		return "err:dbrp"
 	case strings.Contains(m, "must not set both") || strings.Contains(m, "must define one of") || strings.Contains(m, "must must non-negative"):
 		return "err:sched"
+	case strings.Contains(m, "time dimension must be positive"):
+		return "err:dims"
 	}
 	return "err:other"
 }
@@ -583,8 +756,11 @@ func execSched(t []string) string {
 	if c.toks == "" {
 		return "badop"
 	}
-	if k := geti("cron"); k != 0 {
+	c.gbz = kv["gbz"] == "1"
+	if k := geti("cron"); k > 0 {
 		c.cron = cronExpr(k)
+	} else if k < 0 {
+		c.cron = "0 0 0 1 * * 2001" // the first of every month of 2001, then never again
 	}
 	if kv["stop"] == "z" {
 		c.stopZero = true
@@ -632,11 +808,23 @@ func execSched(t []string) string {
 			return "st=err:script"
 		}
 		fc.take()
+		theSink.take()
+		fc.mu.Lock()
+		fc.noPoint = kv["pt"] == "-" || kv["pt"] == ""
+		fc.pt = geti("pt")
+		fc.mu.Unlock()
 		et, err := tm.TM.StartTask(task)
 		if err != nil {
 			return "st=" + errKind(err)
 		}
 		defer tm.TM.StopTask(id)
+		if c.gbz || c.gb < 0 {
+			// accepted although the time dimension is not positive: do not tick (alignGroup would divide by zero in
+			// doQuery's goroutine and take this process down); the driver judges `st=ok` itself.
+			// (StartBatching without ticks only so that StopTask finds a running doQuery to stop.)
+			_ = et.StartBatching()
+			return "st=ok"
+		}
 		var inj []*injTicker
 		kapacitor.VerifWrapQueryTickers(et, func(i int, o kapacitor.VerifTicker) kapacitor.VerifTicker {
 			x := &injTicker{orig: o, ch: make(chan time.Time)}
@@ -703,6 +891,18 @@ func execSched(t []string) string {
 			}
 		}
 		out += fmt.Sprintf(" L=%s lsrc=%s", strings.Join(orDash(L), "|"), list(sortedKeys(srcSet)))
+		// the batches node 0 handed downstream, one per tick
+		for w := 0; theSink.count() < len(c.ticks) && w < 3000; w++ {
+			time.Sleep(time.Millisecond)
+		}
+		var bts []string
+		for _, t := range theSink.take() {
+			if t != fc.pt || fc.noPoint {
+				t -= base // the query's stop (relative in `rel` cases); a point time is absolute
+			}
+			bts = append(bts, strconv.FormatInt(t, 10))
+		}
+		out += " bt=" + list(bts)
 		h2, H2, _ := hist()
 		return out + fmt.Sprintf(" h2=%s H2=%s", h2, H2)
 	})
@@ -740,6 +940,8 @@ func execLine(line string) string {
 		obs = execSplice(t)
 	case "tick":
 		obs = execTick(t)
+	case "dims":
+		obs = execDims(t)
 	case "livereal":
 		obs = execLiveReal(t)
 	case "sched":
